@@ -1,6 +1,7 @@
 import Momo.Proof.SegMachine
 import Momo.Proof.SegArr
 import Momo.Proof.TrEqSeg
+import Momo.Proof.TrEqWave2Seg
 import Momo.Proof.TrEqMisc2Math
 /-!
 # C16 — SegmentedArray never moves elements and indexes them consistently
@@ -313,5 +314,41 @@ theorem C16_itemCount_translated_cnst (L0 s : Nat) (hL : L0 < 64) : Tr.segCnst_G
   exact itemCount64_cnst_eq L0 s hL
 
 example : Tr.um_Log2 1000 = 9 ∧ Tr.um_pvLog2_32 (2 ^ 31) = 31 ∧ Tr.um_Log2 (2 ^ 64 - 1) = 63 := by decide +kernel
+
+/-! #### second wave (tools/trspecs/Wave2.py → `Momo/Translated/Wave2.lean`; equivalences: `Proof/TrEqWave2Seg.lean`) -/
+
+/-- **C16 (capacity arithmetic of the container, from the header text).** For every sizing, the container model's
+`pvIncCapacity` / `pvDecCapacity` (number of segments a capacity needs: `if (itemIndex > 0) ++segIndex`; segments removed:
+`segCount - segIndex`), `Reserve`, `Shrink(capacity)` (keep test and target `max(capacity, mCount)`), `AddBackCrt` (room test) and
+`SetCountCrt` / `pvIncCount` (growth test) are their C++ text: every test and every segment count is the definition translated
+from SegmentedArray.h. -/
+theorem C16_capacity_ops_translated (S : Sizing) (a : Arr) (cap : Nat) (hseg : (S.getSeg cap).1 < 2 ^ 64 - 1) :
+    a.incCapacity S cap = Arr.allocSegs S (Tr.seg_incCap_segCount (S.getSeg cap).1 (S.getSeg cap).2 - a.segs.length) a ∧
+    a.decCapacity S cap = { a with segs := a.segs.take (Tr.seg_decCap_segCount (S.getSeg cap).1 (S.getSeg cap).2) } ∧
+    (Tr.seg_decCap_segCount (S.getSeg cap).1 (S.getSeg cap).2 ≤ a.segs.length →
+      (a.decCapacity S cap).segs.length
+        = a.segs.length - Tr.seg_decCap_removed a.segs.length (Tr.seg_decCap_segCount (S.getSeg cap).1 (S.getSeg cap).2)) ∧
+    a.reserve S cap = (if Tr.seg_Reserve_grows cap (a.capacity S) = true then a.incCapacity S cap else a) ∧
+    a.shrink S cap = (if Tr.seg_Shrink_keeps (a.capacity S) cap = true then a
+                      else a.decCapacity S (Tr.seg_Shrink_target a.count cap)) ∧
+    a.addBack S = (if Tr.seg_AddBack_hasRoom (S.getSeg a.count).1 a.segs.length = true then { a with count := a.count + 1 }
+                   else { (Arr.allocSegs S 1 a) with count := a.count + 1 }) ∧
+    a.setCount S cap = (if cap < a.count then { a with count := cap }
+                        else if cap > a.count then
+                          { (if Tr.seg_incCount_grows cap (a.capacity S) = true then a.incCapacity S cap else a) with count := cap }
+                        else a) :=
+  TrEq.seg_capacity_ops_translated S a cap hseg
+
+/-- **C16 (the allocation loop of `pvIncCapacity`, from the header text).** One round of
+`for (segCount = GetCount(); segCount < segIndex; ++segCount)`: the translated loop test decides whether one more segment of
+`GetItemCount(segCount)` items is appended. -/
+theorem C16_incCapacity_loop_translated (S : Sizing) (n : Nat) (a : Arr) (target : Nat) (h : target - a.segs.length = n) :
+    Arr.allocSegs S n a =
+      (if Tr.seg_incCap_more a.segs.length target = true then
+        Arr.allocSegs S (n - 1) { a with segs := a.segs ++ [⟨a.next, S.itemCount a.segs.length⟩], next := a.next + 1 }
+       else a) :=
+  TrEq.allocSegs_loop S n a target h
+
+example : Tr.seg_incCap_segCount 21 48 = 22 ∧ Tr.seg_incCap_segCount 21 0 = 21 ∧ Tr.seg_Shrink_target 10 3 = 10 := by decide
 
 end Momo.Seg
